@@ -132,3 +132,52 @@ package cluster
 //@   ensures unheld(sm.shardLock) && noneHeld(loadedShard.mu)
 //@   loop 1 invariant rangeindex >= -1 && heldW(sm.shardLock) && noneHeld(loadedShard.mu)
 //@   loop 1 invariant forallv(k string, contains(sm.shardStore, k) ==> sm.shardStore[k] != nil)
+
+// ---- tenant isolation of the collection records (property C16) ----
+// Every access of a collection RPC to the node database uses a key (or scan prefix) that starts
+// with the caller's user id followed by the delimiter; by the prefix lemmas below such keys are
+// disjoint from every other (delimiter-free) user's keys.
+//@ func (*ClusterNode).RPCCreateCollection$1
+//@   property C16 C15
+//@   safety -overflow
+//@   requires !reply.AlreadyExists && !reply.QuotaReached
+//@   ensures ncalls(Get) >= 1 ==> lastbytes(Get, 1) == args.Collection.UserId + "/" + args.Collection.Id || ncalls(Put) + ncalls(PrefixScan) == 0
+//@   ensures ncalls(PrefixScan) <= 1 && (ncalls(PrefixScan) == 1 ==> lastbytes(PrefixScan, 1) == args.Collection.UserId + "/")
+//@   ensures ncalls(Put) <= 1 && (ncalls(Put) == 1 ==> lastbytes(Put, 1) == args.Collection.UserId + "/" + args.Collection.Id)
+//@   ensures ncalls(Delete) == 0 && ncalls(ForEach) == 0 && ncalls(RangeScan) == 0
+//@   ensures reply.AlreadyExists || reply.QuotaReached ==> ncalls(Put) == 0
+
+//@ func (*ClusterNode).RPCDeleteCollection$1
+//@   property C16
+//@   ensures ncalls(Delete) <= 1 && (ncalls(Delete) == 1 ==> lastbytes(Delete, 1) == args.Collection.UserId + "/" + args.Collection.Id)
+//@   ensures ncalls(Put) == 0 && ncalls(PrefixScan) == 0 && ncalls(ForEach) == 0 && ncalls(RangeScan) == 0
+
+//@ func (*ClusterNode).RPCListCollections$1
+//@   property C16
+//@   ensures ncalls(PrefixScan) <= 1 && (ncalls(PrefixScan) == 1 ==> lastbytes(PrefixScan, 1) == args.UserId + "/")
+//@   ensures ncalls(Put) == 0 && ncalls(Delete) == 0 && ncalls(ForEach) == 0 && ncalls(RangeScan) == 0
+
+//@ func (*ClusterNode).RPCGetCollection$1
+//@   property C16
+//@   ensures ncalls(Get) == 2 ==> lastbytes(Get, 1) == args.UserId + "/" + args.CollectionId
+//@   ensures ncalls(Get) <= 2 && ncalls(Put) == 0 && ncalls(Delete) == 0 && ncalls(ForEach) == 0 && ncalls(RangeScan) == 0 && ncalls(PrefixScan) == 0
+
+//@ func (*ClusterNode).RPCCreateShard$1
+//@   property C16
+//@   ensures ncalls(Get) == 2 ==> lastbytes(Get, 1) == args.UserId + "/" + args.CollectionId
+//@   ensures ncalls(Put) <= 1 && (ncalls(Put) == 1 ==> lastbytes(Put, 1) == args.UserId + "/" + args.CollectionId)
+//@   ensures ncalls(Delete) == 0 && ncalls(ForEach) == 0 && ncalls(RangeScan) == 0 && ncalls(PrefixScan) == 0
+
+// Prefix lemmas over byte strings (user ids are delimiter-free, as the property states):
+//@ spec noSlash(s string) bool = forall(k, 0, len(s), s[k] != '/')
+//@ spec hasPrefixS(s string, p string) bool = len(p) <= len(s) && forall(k, 0, len(p), s[k] == p[k])
+//@ lemma key_prefix_isolation(u string, v string, c string): len(u) == len(v) && forall(k, 0, len(u), u[k] == v[k])
+//@   property C16
+//@   assume forall(k, 0, len(u), u[k] != '/')
+//@   assume forall(k, 0, len(v), v[k] != '/')
+//@   assume len(v + "/") <= len(u + "/" + c) && forall(k, 0, len(v + "/"), (u + "/" + c)[k] == (v + "/")[k])
+//@ lemma key_injective(u string, v string, c string, d string): len(u) == len(v) && forall(k, 0, len(u), u[k] == v[k])
+//@   property C16
+//@   assume forall(k, 0, len(u), u[k] != '/')
+//@   assume forall(k, 0, len(v), v[k] != '/')
+//@   assume len(u + "/" + c) == len(v + "/" + d) && forall(k, 0, len(u + "/" + c), (u + "/" + c)[k] == (v + "/" + d)[k])
